@@ -14,7 +14,7 @@ BOUNDS = dict(quick='L1: n <= 5, 2 distances x 3 orderings, the whole chain k = 
               thorough='L1: n <= 6; L0: 12 pool curves, one or two symbolic heights')
 ASSUMPTIONS = ['exact real arithmetic (T1)', '"farther by more than rounding noise" is read as: the gained point attains the maximal interior distance, or every interior distance is below eps',
                'L1: kernels are free non-negative reals keyed by the absolute segment; y >= 0 in L0']
-CONFIG = dict(quick=dict(budget_s=170, case_wall_s=150, max_paths=30000), thorough=dict(budget_s=900, case_wall_s=700, max_paths=600000))
+CONFIG = dict(quick=dict(budget_s=170, case_wall_s=150, max_paths=30000), thorough=dict(max_cases=450, budget_s=900, case_wall_s=700, max_paths=600000))
 DIST = ['shortest', 'perpendicular']
 ORD = ['segment', 'triangle', 'area']
 EPS = Fr(1, 2 ** 52)
